@@ -693,7 +693,7 @@ def quad_oracle(spec):
         return 10 * max(kw.get('epsabs', 1.49e-8), kw.get('epsrel', 1.49e-8) * abs(exact)) if infinite else 0.0
     _, e0 = sq(squad, lambda x: fam['f'](pv, x), a, b, kw)
     s0, _ = sq(squad, lambda x: abs(fam['f'](pv, x)), min(a, b), max(a, b), {})
-    tol = 10 * e0 + 1e-11 * s0 + 1e-14 * (float(at(fam['BF'], a)) + float(at(fam['BF'], b))) + asked(want)
+    tol = 10 * e0 + 1e-11 * s0 + 1e-14 * (float(at(fam['BF'], a)) + float(at(fam['BF'], b))) + asked(want) + 1e-290   # denormal floor
     require(abs(float(res.value) - want) <= tol, what + ': value of the integral differs from F(b) - F(a)', float(res.value), want,
             'tolerance %.3g' % tol, {'p': pv, 'a': a, 'b': b})
     Ga, Gb = at(fam['G'], a), at(fam['G'], b)
@@ -705,15 +705,15 @@ def quad_oracle(spec):
             si, _ = sq(squad, lambda x, i=i: abs(fam['df'](pv, x)[i]), min(a, b), max(a, b), {})
             ops.append(args[i])
             grad.append(float(Gb[i]) - float(Ga[i]))
-            err.append(10 * ei + 1e-11 * si + 1e-14 * (float(BGa[i]) + float(BGb[i])) + asked(grad[-1]))
+            err.append(10 * ei + 1e-11 * si + 1e-14 * (float(BGa[i]) + float(BGb[i])) + asked(grad[-1]) + 1e-290)
     if isobs[n]:
         ops.append(args[n])
         grad.append(-float(fam['f'](pv, a)))
-        err.append(1e-13 * float(fam['Bf'](pv, a)))
+        err.append(1e-13 * float(fam['Bf'](pv, a)) + 1e-15 * max([1.0] + [abs(q) for q in pv]))      # f of a limit at rounding level
     if isobs[n + 1]:
         ops.append(args[n + 1])
         grad.append(float(fam['f'](pv, b)))
-        err.append(1e-13 * float(fam['Bf'](pv, b)))
+        err.append(1e-13 * float(fam['Bf'](pv, b)) + 1e-15 * max([1.0] + [abs(q) for q in pv]))
     refs = [RefObs.from_pe(o) for o in ops]
     v = float(res.value)
     rf = combine(lambda x: v, grad, refs, value=v)           # the value was judged above with the quadrature tolerance
